@@ -75,6 +75,11 @@ theorem WtInv.step {s : State} (h : WtInv s) (st : Step) (hv : valid s st = true
           omega
         · exact h.of_eq rfl rfl rfl rfl rfl
       · exact h.of_eq rfl rfl rfl rfl rfl
+  | executeF prio cb =>
+    simp only [Tbox.C05.step]
+    split
+    · exact h
+    · exact h.of_eq rfl rfl rfl rfl rfl
   | cancel id =>
     simp only [Tbox.C05.step]
     split
